@@ -31,11 +31,16 @@ behaviour-preserving clean-ups; each verified bit-identical outputs with its own
 `B7`-`B12`: deliberately ambitious restructurings (functions split by phase, code de-duplicated across match arms and types, formulas moved
 into helpers, guard clauses, helpers moved between modules, reordered fields, rewritten hot loops, tuples replaced by private structs).
 
+`R5-*`: "repaired twins" of the round-5 seeds (`seeded/*-r5-*`: bugs hidden inside refactorings) - the same refactoring with only the hidden bug
+taken out, built by hand; the unedited suite and the seed's own demonstration (kept as `equiv.rs`) pass on each. The check of the broken property
+must report the seed and stay silent on the twin.
+
 `python3 tools/check_benign.py` applies each `refactor.diff` to a scratch copy and runs all 18 checks; a non-zero exit of any check is a
-false alarm.  Status on the committed machinery: **%d of %d silent**.  The ones that still raise an alarm are large restructurings of the hot loops
-(per-channel loops rewritten as three-way zips, SIMD kernels rewritten over `chunks_exact`, arms folded into generic helpers taking closures)
-or introduce new private types that carry the computation (a `CutoffFit` struct, an `FftSizes` struct): the recognisers fail closed on
-them ("unrecognised loop / statement") - the report says that the analysis could not follow the code, not that a property is violated.
+false alarm.  Status on the committed machinery: **%d of %d silent**.  The ones that still raise an alarm introduce a new private type that carries
+the computation (`B11-1`: `calculate_cutoff` rebuilt around a `CutoffFit` struct with methods; `R5-C13-2`: `validate_buffers` rebuilt around a
+`BufferFault` enum and `Iterator::find`), replace a cached field by a derived getter (`R5-C07-2`), or replace the wrappers' allocation loop by
+`(0..n).map(..).collect()` (`R5-C11-1`): the recognisers fail closed on them ("unrecognised loop / statement", "anchor missing") - the report says
+that the analysis could not follow the code, not that a property is violated.
 
 | refactoring | what (first line of the author's notes) | all 18 checks | rule families that fail closed |
 |---|---|---|---|
